@@ -50,7 +50,7 @@ def tsan_leg(cases):
                 timeout=dict(thorough=3000), args=dict(cases=cases))
 
 
-def miri_leg(binname, cases, weakmem=False):
+def miri_leg(binname, cases, weakmem=False, deadlock=False):
     flags = '-Zmiri-disable-isolation' + ('' if weakmem else ' -Zmiri-disable-weak-memory-emulation')
     args = dict(cases=cases)
     if weakmem:
@@ -58,7 +58,7 @@ def miri_leg(binname, cases, weakmem=False):
     return dict(name='miri-weakmem' if weakmem else 'miri', bin=binname, flavour='miri', shards=16, tiers=('thorough',), sanitizer='miri',
                 runner_cmd=MIRI_RUN + ['--bin', binname, '--'], seed_flag='-Zmiri-seed=',
                 env={'MIRIFLAGS': flags, 'RUSTFLAGS': '--cfg calloop_verif', 'CARGO_TARGET_DIR': _os.path.join(_VERIF, 'target', 'miri')},
-                timeout=dict(thorough=3000), args=args)
+                timeout=dict(thorough=3000), args=args, deadlock_is_violation=deadlock)
 
 
 def memcheck_leg(binname, cases):
@@ -125,7 +125,7 @@ def sched(prop, level_text, required, extra_legs=(), **kw):
     ncases = dict(quick=4000, thorough=40000 if prop == 'C11' else 120000)
     d = dict(
         legs=[dict(name='native', bin='sched', shards=16, timeout=dict(quick=500, thorough=3600), args=dict(cases=ncases))] + list(extra_legs)
-        + [asan_leg('sched', 6000 if prop == 'C11' else 16000), tsan_leg(6000 if prop == 'C11' else 16000), miri_leg('sched', 160), miri_leg('sched', 96, weakmem=True)],
+        + [asan_leg('sched', 6000 if prop == 'C11' else 16000), tsan_leg(6000 if prop == 'C11' else 16000), miri_leg('sched', 160, deadlock=prop in ('C03', 'C11')), miri_leg('sched', 96, weakmem=True, deadlock=prop in ('C03', 'C11'))],
         rule=SCHED_RULE,
         assumptions=COMMON_ASSUME + ['unbounded "eventually" is restated as: by quiescence (all client threads joined, loop dispatched until idle), plus a state-based lost-wake predicate (a 200 ms dispatch times out although something is owed)',
                                      'x86-64 host: weak-memory reorderings are visible only to the Miri leg'],
